@@ -39,7 +39,7 @@ def model_inputs(model, inputs: Dict[str, Any]) -> Dict[str, str]:
 
 
 def discharge(ob: Obligation, *, budget_ms: int = 5000, inputs: Optional[Dict[str, Any]] = None,
-              want_smt2: bool = False) -> Obligation:
+              want_smt2: bool = False, try_mbqi: bool = True) -> Obligation:
     t0 = time.time()
     s = _solver(False, budget_ms)
     s.add(*ob.hyps)
@@ -47,6 +47,8 @@ def discharge(ob: Obligation, *, budget_ms: int = 5000, inputs: Optional[Dict[st
     r = s.check()
     if r == z3.unsat:
         ob.status, ob.backend = 'discharged', 'z3-5.1 (e-matching)'
+    elif not try_mbqi:
+        ob.status, ob.backend = 'undecided', f'z3-5.1 {r} (e-matching only)'
     else:
         s2 = _solver(True, budget_ms)
         s2.add(*ob.hyps)
